@@ -168,9 +168,9 @@ fn char_gap<const K: usize>() {
     must_reach!(somes == K, "K items around the surrogate gap");
     must_reach!(somes < K && somes >= 2, "range across the gap exhausted");
 }
-tiers! { char_gap: unwind(8, 10), char_gap::<6>(), char_gap::<8>(),
+tiers! { char_gap: unwind(8, 8), char_gap::<6>(), char_gap::<5>(),
     calls("RangeInclusiveIter::<char>::next", "RangeInclusiveIter::<char>::next_back"),
-    bounds("start in U+D7FD..=U+D7FF, end in U+E000..=U+E002, 6 steps (every interleaving)", "8 steps") }
+    bounds("start in U+D7FD..=U+D7FF, end in U+E000..=U+E002, 6 steps (every interleaving)", "5 steps") }
 
 // ------------------------------------------------------------------ the macro route
 
